@@ -190,8 +190,11 @@ def accounting(prog: Program, rep) -> None:
     else:
         rep.ok("iteration-accounting", sv.short, f"all {n_back} back-edge paths have exactly one _compute_step and one increment of the iteration counter; break paths have none")
     writes = L.stores_in_loop(cnt)
-    rep.check(len(writes) == 1 and is_inc(writes[0].stmt), "iteration-accounting", sv.qualname, short(writes[0].stmt) if writes else "",
-              "the only write to the iteration counter inside the loop is the single `+= 1`", sv.loc(writes[0].stmt) if writes else sv.loc())
+    # every write to the counter inside the loop is a `+= 1` (the path rule above already shows that each back-edge path passes
+    # exactly one of them, so an increment per exit of the body - before a `continue`, at the end - is the same accounting)
+    bad_w = [w for w in writes if not is_inc(w.stmt)]
+    rep.check(bool(writes) and not bad_w, "iteration-accounting", sv.qualname, short((bad_w or writes)[0].stmt) if writes else "",
+              "the only writes to the iteration counter inside the loop are `+= 1` increments", sv.loc((bad_w or writes)[0].stmt) if writes else sv.loc())
     # (c) start at literal 0
     d0 = L.last_def_before_loop(cnt)
     rep.check(d0 is not None and const_value(d0.stmt.value) == 0, "iteration-accounting", sv.qualname, short(d0.stmt) if d0 else "",
